@@ -1030,7 +1030,7 @@ func TestVerif(t *testing.T) {
 	if env.Thorough() {
 		deadline = time.Now().Add(budget / 2)
 	}
-	maxCases := 1500
+	maxCases := 5000
 	if env.Thorough() || env.Deep {
 		maxCases = 40000
 	}
